@@ -428,7 +428,7 @@ impl<'a> JobCtx<'a> {
         st.evaluations += 1;
         st.ops += out.w.op;
         st.client_bytes += out.w.wire_delivered;
-        st.server_bytes += out.w.wire_s.len() as u64;
+        st.server_bytes += out.w.wire_written;
         *st.ends.entry(out.end.class()).or_insert(0) += 1;
         let nontrivial = out.w.callbacks.len() > 1 || out.w.answered > 1 || out.w.fault_fired.is_some() || out.model.hostile;
         if nontrivial {
